@@ -77,6 +77,16 @@ Theorem C11_standard_scaler_var_1 : forall v s,
 Proof. exact standard_scaler_var_1. Qed.
 Print Assumptions C11_standard_scaler_var_1.
 
+Theorem C11_standard_scaler_std_only_var_1 : forall v s,
+  v <> [] -> s * s == pvar v -> ~ s == 0 -> pvar (map (fun x => x / s) v) == 1.
+Proof. exact standard_scaler_std_only_var_1. Qed.
+Print Assumptions C11_standard_scaler_std_only_var_1.
+
+Theorem C11_standard_scaler_mean_only_mean_0 : forall v,
+  v <> [] -> mean (map (fun x => x - mean v) v) == 0.
+Proof. exact standard_scaler_mean_only. Qed.
+Print Assumptions C11_standard_scaler_mean_only_mean_0.
+
 Example C11_irrational_hypotheses_met : (5 * 5 == sumsq [3; 4]) /\ ~ 5 == 0 /\ (1 * 1 == pvar [1; 3]) .
 Proof. repeat split; try reflexivity; intros H; discriminate H. Qed.
 
